@@ -551,7 +551,7 @@ impl<const MAX_PDI: usize> Grp<MAX_PDI> {
     decreases __dl.left@
 @*/
 
-/*@fragment file=src/subdevice_group/mod.rs impl="impl<const MAX_SUBDEVICES: usize, const MAX_PDI: usize, R: RawRwLock, S, DC> SubDeviceGroup<MAX_SUBDEVICES, MAX_PDI, R, S, DC>" fn=transition_to from="for subdevice in self.inner.get_mut().subdevices.iter_mut()" to="self.wait_for_state(maindevice, desired_state).await?;" name=transition_request_and_wait qual="pub async" sig="&mut self, maindevice: &MainDevice, desired_state: SubDeviceState -> (r: Result<(), Error>)" tail="Ok(())" subst="self.inner.get_mut().subdevices.iter_mut()=>self.sd_iter_mut()" props=C10 attr="#[verifier::loop_isolation(false)]"
+/*@fragment file=src/subdevice_group/mod.rs impl="impl<const MAX_SUBDEVICES: usize, const MAX_PDI: usize, R: RawRwLock, S, DC> SubDeviceGroup<MAX_SUBDEVICES, MAX_PDI, R, S, DC>" fn=transition_to from="@start" to="self.wait_for_state(maindevice, desired_state).await?;" name=transition_request_and_wait qual="pub async" sig="&mut self, maindevice: &MainDevice, desired_state: SubDeviceState -> (r: Result<(), Error>)" tail="Ok(())" subst="self.inner.get_mut().subdevices.iter_mut()=>self.sd_iter_mut()" props=C10 attr="#[verifier::loop_isolation(false)]"
     requires
         maindevice.pdu_loop.area <= 0x7ff,
         maindevice.pdu_loop.area >= 14,
